@@ -712,7 +712,7 @@ def _main(argv):
     max_f, max_t = (3, 3) if quick else (4, 4)
     descs = [("C", n) for n in names]
     tp = tpc_descs(max_f, max_t, names)
-    nest = [] if quick else nested_descs(3, names)
+    nest = nested_descs(2 if quick else 3, names)
     order = descs + tp + nest
     if run.seed:
         import random
